@@ -135,9 +135,38 @@ func checkNames(p *Program, r *Report) {
 			if b, ok := sig.Params().At(sig.Params().Len() - 1).Type().Underlying().(*types.Basic); !ok || b.Kind() != types.String {
 				continue
 			}
-			if len(callsDirect(f, "method:(Table).SeekRef")) > 0 {
+			seeks := len(callsDirect(f, "method:(Table).SeekRef")) > 0
+			if !seeks {
+				// through a seek helper one call away
+				for k := range directCallees(f) {
+					if g := p.Func(k); g != nil && g != f && len(callsDirect(g, "method:(Table).SeekRef")) > 0 {
+						seeks = true
+					}
+				}
+			}
+			if seeks {
 				lookups = append(lookups, f)
 			}
+		}
+		// a function that merely forwards to another lookup is not one itself
+		{
+			isLookup := map[string]bool{}
+			for _, f := range lookups {
+				isLookup[funcKey(f)] = true
+			}
+			var kept []*ssa.Function
+			for _, f := range lookups {
+				wrapper := false
+				for k := range directCallees(f) {
+					if isLookup[k] && k != funcKey(f) {
+						wrapper = true
+					}
+				}
+				if !wrapper {
+					kept = append(kept, f)
+				}
+			}
+			lookups = kept
 		}
 		if len(lookups) != 2 {
 			fatalf("unresolved anchor: the two ref lookups (functions returning (bool, error) that seek a name in a Table): %d found", len(lookups))
